@@ -19,7 +19,8 @@ Proof. repeat split; reflexivity. Qed.
 
 Lemma gen_limit_constants :
   qs_overhead = 32 /\ lim_default = 2 ^ 62 - 1 /\ lim_refusal_status = 431 /\ lim_refusal_send_error_propagates = true /\
-  lim_client_response_stop_code = 268 /\ lim_client_trailers_stop_code = 268 /\ lim_setting_id = 6.
+  lim_client_response_stop_code = 268 /\ lim_client_trailers_stop_code = 268 /\ lim_setting_id = 6 /\
+  lim_recv_request_decomp_code = 512 /\ lim_recv_response_decomp_code = 512 /\ lim_recv_trailers_decomp_code = 512.
 Proof. repeat split; reflexivity. Qed.
 
 (* ---------------------------------------------------------------- T1: the sizes h3 computes are the RFC 9114 4.2.2 size *)
@@ -87,10 +88,10 @@ Qed.
    decoding of bs *)
 Definition readable (bs : bytes) (fs : list field) : Prop := exists m, decode_stateless None bs = Ok (fs, m).
 
-Theorem recv_section_exact own ps bs fs :
+Theorem recv_section_exact c own ps bs fs :
   wf_bytes bs -> readable bs fs ->
-  (section_size fs <= own -> recv_section true own ps bs = Delivered fs) /\
-  (own < section_size fs -> exists n, own < n /\ recv_section true own ps bs = RecvTooBig n own).
+  (section_size fs <= own -> recv_section true c own ps bs = Delivered fs) /\
+  (own < section_size fs -> exists n, own < n /\ recv_section true c own ps bs = RecvTooBig n own).
 Proof.
   intros Hwf [m H]. pose proof (decode_size_is_rfc _ _ _ Hwf H) as Hm. subst m.
   destruct (decode_stateless_limit own _ _ _ H) as [H1 H2]. unfold recv_section. split.
@@ -129,8 +130,8 @@ Theorem server_request_exact own ps bs fs :
                   ro_written (server_recv_request own ps bs) =
                     if limit_in_force ps <? 42 then None else Some refusal_section).
 Proof.
-  intros Hwf Hr. destruct (recv_section_exact own ps bs fs Hwf Hr) as [H1 H2].
-  unfold server_recv_request, lim_recv_request_own. split.
+  intros Hwf Hr. destruct (recv_section_exact lim_recv_request_decomp_code own ps bs fs Hwf Hr) as [H1 H2].
+  unfold server_recv_request, lim_recv_request_own, lim_recv_request_decomp_code. split.
   - intros Hle. rewrite (H1 Hle). reflexivity.
   - intros Hlt. destruct (H2 Hlt) as (n & Hn & E). rewrite E, send_response_refusal.
     destruct (N.ltb_spec (limit_in_force ps) 42) as [Hsmall|Hbig].
@@ -147,8 +148,8 @@ Theorem client_response_exact own ps bs fs :
        client_recv_response own ps bs =
        {| ro_result := RecvTooBig n own; ro_written := None; ro_stop := Some H3_REQUEST_CANCELLED |}).
 Proof.
-  intros Hwf Hr. destruct (recv_section_exact own ps bs fs Hwf Hr) as [H1 H2].
-  unfold client_recv_response, lim_recv_response_own. split.
+  intros Hwf Hr. destruct (recv_section_exact lim_recv_response_decomp_code own ps bs fs Hwf Hr) as [H1 H2].
+  unfold client_recv_response, lim_recv_response_own, lim_recv_response_decomp_code. split.
   - intros Hle. rewrite (H1 Hle). reflexivity.
   - intros Hlt. destruct (H2 Hlt) as (n & Hn & E). rewrite E. exists n. split; [exact Hn|reflexivity].
 Qed.
@@ -164,17 +165,17 @@ Theorem trailers_exact own ps bs fs :
        client_recv_trailers own ps bs =
        {| ro_result := RecvTooBig n own; ro_written := None; ro_stop := Some H3_REQUEST_CANCELLED |}).
 Proof.
-  intros Hwf Hr. destruct (recv_section_exact own ps bs fs Hwf Hr) as [H1 H2].
-  unfold server_recv_trailers, client_recv_trailers, lim_recv_trailers_own. split.
+  intros Hwf Hr. destruct (recv_section_exact lim_recv_trailers_decomp_code own ps bs fs Hwf Hr) as [H1 H2].
+  unfold server_recv_trailers, client_recv_trailers, lim_recv_trailers_own, lim_recv_trailers_decomp_code. split.
   - intros Hle. rewrite (H1 Hle). split; reflexivity.
   - intros Hlt. destruct (H2 Hlt) as (n & Hn & E). rewrite E. exists n. repeat split; auto.
 Qed.
 
 (* a readable section never produces a connection error at a receive site, whatever the limits *)
-Theorem recv_never_connection_error own ps bs fs code :
-  wf_bytes bs -> readable bs fs -> recv_section true own ps bs <> RecvConnError code.
+Theorem recv_never_connection_error c own ps bs fs code :
+  wf_bytes bs -> readable bs fs -> recv_section true c own ps bs <> RecvConnError code.
 Proof.
-  intros Hwf Hr. destruct (recv_section_exact own ps bs fs Hwf Hr) as [H1 H2].
+  intros Hwf Hr. destruct (recv_section_exact c own ps bs fs Hwf Hr) as [H1 H2].
   destruct (N.le_gt_cases (section_size fs) own) as [Hle|Hgt].
   - rewrite (H1 Hle). discriminate.
   - destruct (H2 Hgt) as (n & _ & E). rewrite E. discriminate.
@@ -229,4 +230,91 @@ Theorem over_limit_is_refused_unwritten own ps fs :
 Proof.
   intros Hwf Hlt. destruct (send_sites_exact own ps fs Hwf) as (bs & _ & H1 & H2 & H3). cbv zeta in *.
   destruct (N.ltb_spec (limit_in_force ps) (section_size fs)) as [_|Hle]; [auto|lia].
+Qed.
+
+(* ---------------------------------------------------------------- C11: a section h3 cannot decode is a CONNECTION error
+   with code QPACK_DECOMPRESSION_FAILED (0x200) at each of the three receive sites, whatever the limits *)
+Lemma fields_loop_limit_err L fuel : forall bs mem acc e,
+  fields_loop fuel bs None mem acc = Err e ->
+  fields_loop fuel bs (Some L) mem acc = Err e \/ exists n, fields_loop fuel bs (Some L) mem acc = Err (DHeaderTooLong n).
+Proof.
+  induction fuel as [|k IH]; intros bs mem acc e H; destruct bs as [|b t]; cbn [fields_loop] in *; try discriminate.
+  - left. exact H.
+  - destruct (field_decode (b :: t)) as [[f r]|e'|]; try discriminate.
+    + cbn [too_long] in H. destruct (too_long (mem + mem_size f) (Some L)); [right; eexists; reflexivity|].
+      apply IH. exact H.
+    + left. exact H.
+Qed.
+
+Lemma fields_loop_limit_ok L fuel : forall bs mem acc r,
+  fields_loop fuel bs (Some L) mem acc = Ok r -> fields_loop fuel bs None mem acc = Ok r.
+Proof.
+  induction fuel as [|k IH]; intros bs mem acc r H; destruct bs as [|b t]; cbn [fields_loop] in *; try discriminate;
+    try exact H.
+  destruct (field_decode (b :: t)) as [[f r']|e'|]; try discriminate.
+  destruct (too_long (mem + mem_size f) (Some L)); [discriminate|]. cbn [too_long]. apply IH. exact H.
+Qed.
+
+(* production code always passes a finite limit: what is accepted under a limit is accepted without one, so
+   everything C11 proves about [decode_stateless None] covers every acceptance at the call sites *)
+Theorem decode_limit_ok_is_unlimited_ok L bs r : decode_stateless (Some L) bs = Ok r -> decode_stateless None bs = Ok r.
+Proof.
+  unfold decode_stateless. destruct (hp_decode bs) as [[[[eic sign] delta] r0]|e|]; try discriminate.
+  destruct (qs_ric_nonzero_rejected && negb (eic =? 0)); [discriminate|].
+  destruct (qs_base_checked && qs_negative_base_is_error && sign); [discriminate|].
+  apply fields_loop_limit_ok.
+Qed.
+
+Theorem decode_limit_err L bs e :
+  decode_stateless None bs = Err e ->
+  decode_stateless (Some L) bs = Err e \/ exists n, decode_stateless (Some L) bs = Err (DHeaderTooLong n).
+Proof.
+  unfold decode_stateless. destruct (hp_decode bs) as [[[[eic sign] delta] r0]|e'|]; try discriminate.
+  - destruct (qs_ric_nonzero_rejected && negb (eic =? 0)); [intros H; left; exact H|].
+    destruct (qs_base_checked && qs_negative_base_is_error && sign); [intros H; left; exact H|].
+    apply fields_loop_limit_err.
+  - intros H. left. exact H.
+Qed.
+
+(* an undecodable section at a receive site: connection error QPACK_DECOMPRESSION_FAILED, or - when the running
+   size passed the limit before the bad line was reached - header-too-big; never delivered, never a panic *)
+Theorem bad_section_at_receive_sites own ps bs e :
+  wf_bytes bs -> decode_stateless None bs = Err e ->
+  forall site, In site [ro_result (server_recv_request own ps bs); ro_result (client_recv_response own ps bs);
+                        ro_result (server_recv_trailers own ps bs); ro_result (client_recv_trailers own ps bs)] ->
+  site = RecvConnError 512 \/ exists a m, site = RecvTooBig a m.
+Proof.
+  intros Hwf He.
+  assert (Hc : decompression_failed e = true) by (eapply decode_stateless_err_class; eauto).
+  assert (G : forall c, recv_section true c own ps bs = RecvConnError c \/ exists a m, recv_section true c own ps bs = RecvTooBig a m).
+  { intros c. unfold recv_section. destruct (decode_limit_err own bs e He) as [H|[n H]]; rewrite H.
+    - left. destruct e; try reflexivity; discriminate.
+    - right. eauto. }
+  intros site Hin. cbn [In] in Hin.
+  unfold server_recv_request, client_recv_response, server_recv_trailers, client_recv_trailers,
+    lim_recv_request_own, lim_recv_response_own, lim_recv_trailers_own,
+    lim_recv_request_decomp_code, lim_recv_response_decomp_code, lim_recv_trailers_decomp_code in Hin.
+  change QPACK_DECOMPRESSION_FAILED with 512 in Hin.
+  destruct (G 512) as [E|(a & m & E)]; rewrite E in Hin.
+  - cbn in Hin. intuition (subst; auto).
+  - destruct (send_response own ps refusal_fields); destruct lim_refusal_send_error_propagates; cbn in Hin;
+      intuition (subst; eauto).
+Qed.
+
+(* without a limit in the way (limit >= everything decoded so far is impossible to state per prefix; the common case:
+   the limit is the default 2^62-1 and the section is shorter than that) the refusal is exactly the connection error *)
+Theorem bad_section_is_connection_error_512 own ps bs e :
+  wf_bytes bs -> decode_stateless None bs = Err e -> decode_stateless (Some own) bs = Err e ->
+  ro_result (server_recv_request own ps bs) = RecvConnError 512 /\
+  ro_result (client_recv_response own ps bs) = RecvConnError 512 /\
+  ro_result (server_recv_trailers own ps bs) = RecvConnError 512 /\
+  ro_result (client_recv_trailers own ps bs) = RecvConnError 512.
+Proof.
+  intros Hwf He HeL.
+  assert (Hc : decompression_failed e = true) by (eapply decode_stateless_err_class; eauto).
+  unfold server_recv_request, client_recv_response, server_recv_trailers, client_recv_trailers, recv_section,
+    lim_recv_request_own, lim_recv_response_own, lim_recv_trailers_own,
+    lim_recv_request_decomp_code, lim_recv_response_decomp_code, lim_recv_trailers_decomp_code.
+  rewrite HeL. change QPACK_DECOMPRESSION_FAILED with 512.
+  destruct e; try discriminate; repeat split; reflexivity.
 Qed.
